@@ -752,7 +752,10 @@ class Exec:
                 return r[0].v, st.heap, r[1]
             return r, st.heap, guard
         if fn is None or fn.get('external') or 'blocks' not in fn:
-            if ctx.hooks.get('lenient'):
+            opaque_ok = any(x in fname for x in ('github.com/spf13/cobra.', 'github.com/spf13/pflag.'))
+            if opaque_ok:
+                ctx.note('calls into cobra/pflag return opaque values (argument plumbing is not encoded)')
+            if ctx.hooks.get('lenient') or opaque_ok:
                 nres = 1
                 if fn is not None:
                     nres = len(self.prog.types[fn['sig']]['results'])
@@ -761,6 +764,22 @@ class Exec:
             raise Unsupported('call to unmodelled function %s' % fname)
         ctx.funcs_encoded.add(fname)
         ctx.stats['calls'] += 1
+        # summarise a callee as an uninterpreted function of its string arguments (same input -> same fresh output)
+        summ = ctx.hooks.get('summarise')
+        if summ and fname in summ:
+            def k(a):
+                if isinstance(a, Str):
+                    return ('s', tuple(x if is_c(x) else ('t', x.get_id()) for x in a.b[:a.cap]), a.ln if is_c(a.ln) else ('t', a.ln.get_id()))
+                return ('o',)
+            key = (fname,) + tuple(k(a) for a in args)
+            tbl = ctx.hooks.setdefault('_summ', {})
+            if key not in tbl:
+                n = len(tbl)
+                out = s_fresh('summ%d' % n, summ[fname])
+                ctx.assumptions.append(z3.And(out.ln >= 0, out.ln <= summ[fname]))
+                tbl[key] = out
+                ctx.note('%s summarised as an uninterpreted function of its input (equal inputs give equal outputs; nothing else is assumed)' % fname)
+            return (tbl[key], NILIFACE), heap, guard
         # case-split selected integer arguments over their (small) value sets; memoise pure functions
         sp = ctx.hooks.get('split')
         if sp and fn['short'] in sp and not ctx.hooks.get('_in_split'):
